@@ -660,7 +660,7 @@ func newBuilder(seed uint32, mkdirs []string, keep bool) *builder {
 
 // (the last two: a "*" in the DIRECTORY is an ordinary character; hidden relative directories)
 var c18Dirs = []string{"", ".", "/", "/d", "/d/", "/d/../d", "/d//sub/.", "d", "../up", "/new/deep/dir", "/w/build*", "/w/a*b/c", ".cache", ".hid/sub"}
-var c18Patterns = []string{"", "50%-*.txt", "a%20b-*", "q%s-", "%d*%v", "%", "x", "x*", "*y", "x*y", "a*b*c", "*", "**", "x.y*.txt", "sp ace *", ".", "..", "..*", "x*..", "../esc*", "a/b", "/abs*", "x*/y", "x*y/", "*/", ".draft-*.txt", ".hidden", "..x*"}
+var c18Patterns = []string{"", strings.Repeat("long-prefix-", 21) + "*.tmp", strings.Repeat("p", 300), "50%-*.txt", "a%20b-*", "q%s-", "%d*%v", "%", "x", "x*", "*y", "x*y", "a*b*c", "*", "**", "x.y*.txt", "sp ace *", ".", "..", "..*", "x*..", "../esc*", "a/b", "/abs*", "x*/y", "x*y/", "*/", ".draft-*.txt", ".hidden", "..x*"}
 
 // lcgPreimageOfZero: the state from which the next step yields 0 (so the call after reseeds).
 func lcgPreimageOfZero() uint32 {
